@@ -218,6 +218,18 @@ func (e *Engine) intrinsic(fr *frame, fn *ssa.Function, args []Value, c *ssa.Cal
 		}
 		arr := e.symBytes(tag, int(cp))
 		return &Slice{bobj: e.newByteObj(arr), off: e.c64(0), len: e.c64(n), cap: e.c64(cp)}
+	case "WithTail":
+		// same bytes as base in [0,len), fresh symbolic bytes in [len,cap)
+		base := args[0].(*Slice)
+		tag := e.tagName(args[1])
+		n := e.mustConst(base.len, "WithTail len")
+		cp := e.mustConst(base.cap, "WithTail cap")
+		off := e.mustConst(base.off, "WithTail off")
+		if off != 0 || base.bobj == nil {
+			panic(e.unsupported("WithTail on a non-zero-offset slice"))
+		}
+		tail := e.symBytes(tag, int(cp))
+		return &Slice{bobj: e.newByteObj(e.tt.ArrSplit(n, base.bobj.arr, tail)), off: e.c64(0), len: e.c64(n), cap: e.c64(cp)}
 	case "Str":
 		tag := e.tagName(args[0])
 		n := e.mustConst(args[1].(*Term), "Str len")
